@@ -476,6 +476,8 @@ SHAPES = [
     (0, {}),        # an application that declares nothing: the built-in catalog is still answered
     # (depth, mapping): containers without content in front of, between and behind the populated ones, at every level
     (2, {"t1": {"a": "INT", "b": "TEXT"}, "t2": {"c": "DATE"}}),
+    # a table wider than any look-ahead the result machinery may use (catalog listings have all-NULL columns: Key, Default, Extra)
+    (3, {"wide": {"t": {"c%04d" % i: "INT" for i in range(1100)}, "u": {"x": "TEXT"}}}),
     (2, {"e0": {}, "t1": {"a": "INT", "b": "TEXT"}}),
     (3, {"e0": {}, "db1": {"t1": {"a": "INT", "b": "TEXT"}}, "db2": {"t2": {"c": "DATE"}}}),
     (3, {"db1": {"e0": {}, "t1": {"b": "TEXT", "a": "INT"}}, "e1": {}}),
